@@ -233,8 +233,25 @@ def sup_unfilled_index(P):
         return q.all_roots(body, op, lambda x: x.kind == "call" and x.name.endswith("Iterator>::next") and "Enumerate" in x.name
                            and tuple(x.fields[-1:]) == ("0",))
     news = []
+
+    def index_roots(op, depth=0):
+        """roots of the index operand, looking through `slot.map(|u| *u.as_undecorated())` (the closure only unwraps)"""
+        out = []
+        for r in prov(b, op):
+            if r.kind == "call" and str(r.name).endswith("Option::map") and r.site is not None and depth < 3:
+                mt = b.term(r.site)
+                clo = None
+                for x in prov(b, mt["args"][1]):
+                    if x.kind in ("agg", "closure"):
+                        clo = P.bodies.get(str(x.name).replace("closure:", ""))
+                if clo is not None and q.all_roots(clo, {"k": "copy", "place": {"l": 0, "p": []}}, lambda y: y.kind == "param"):
+                    # what the closure is applied to: the Some payload of the slot
+                    out += [x for x in prov(b, mt["args"][0], suffix=("#Some", "0"))]
+                    continue
+            out.append(r)
+        return out
     for bb, t in idx_sites:
-        for r in prov(b, t["args"][1]):
+        for r in index_roots(t["args"][1]):
             if r.kind == "agg" and r.name.endswith("Option::None"):
                 continue            # the empty slot: not a Some payload
             if r.kind == "call" and (r.name.endswith("Option::replace") or r.name.endswith("Option::take")):
